@@ -53,7 +53,7 @@ CASES = {t: len(_EXH[t]) + SAMPLED[t] for t in ("quick", "thorough")}
 FLOOR = {"quick": 1800, "thorough": 25000}
 FLOOR_COUNTERS = {
     "quick": {"links_judged": 4000, "exhaustive_schedule_cases": len(_EXH["quick"]), "prefix_init_fits": 150, "threshold_toggles": 300, "estimators_with_a_past": 300, "small_unit_cases": 60, "configured_not_by_constructor": 500, "non_default_containers": 500, "reader_rounds": 2000, "carried_by:deepcopy": 100, "carried_by:pickle": 100, "thresholds_equal_to_a_score": 20, "float32_inputs": 50, "links_that_add_nothing": 100, "voronoi_links_with_calibrated_switching_point": 40},
-    "thorough": {"links_judged": 60000, "exhaustive_schedule_cases": len(_EXH["thorough"]), "prefix_init_fits": 2500, "threshold_toggles": 5000, "estimators_with_a_past": 5000, "small_unit_cases": 1000, "configured_not_by_constructor": 9000, "non_default_containers": 9000, "reader_rounds": 30000, "carried_by:deepcopy": 1800, "carried_by:pickle": 1800, "thresholds_equal_to_a_score": 350, "float32_inputs": 800, "links_that_add_nothing": 1500, "voronoi_links_with_calibrated_switching_point": 500},
+    "thorough": {"chains_beyond_32767_selections": 2, "links_judged": 60000, "exhaustive_schedule_cases": len(_EXH["thorough"]), "prefix_init_fits": 2500, "threshold_toggles": 5000, "estimators_with_a_past": 5000, "small_unit_cases": 1000, "configured_not_by_constructor": 9000, "non_default_containers": 9000, "reader_rounds": 30000, "carried_by:deepcopy": 1800, "carried_by:pickle": 1800, "thresholds_equal_to_a_score": 350, "float32_inputs": 800, "links_that_add_nothing": 1500, "voronoi_links_with_calibrated_switching_point": 500},
 }
 RULE = (
     "case = one of 13 selector variants (FPS, PCov-FPS both directions, VoronoiFPS, CUR/PCov-CUR both directions with "
@@ -92,7 +92,42 @@ def _form(rng, e, N, allow_none=True):
     return 1.0 if e == N else float((e + 0.5) / N)
 
 
+def _run_long(case, j):
+    """A warm chain that passes 32767 selections (more than a 16-bit counter holds): Voronoi FPS on 33000 points,
+    fit to 32700, warm start to 32800, against the single cold fit to 32800 and against the definition for the last
+    hundred steps (direct squared differences to everything selected before)."""
+    from skmatter.sample_selection import VoronoiFPS
+
+    rg = np.random.default_rng(case["seed"])
+    X = rg.normal(size=(33000, 2)) * np.array([1.0, 0.6])
+    ff = case["ff"]
+    j.tag("sample:VoronoiFPS:long", "data:33000_points")
+    cold = VoronoiFPS(n_to_select=32800, initialize=case["start"], full_fraction=ff)
+    j.lib("fit:cold", cold.fit, X)
+    est = VoronoiFPS(n_to_select=32700, initialize=case["start"], full_fraction=ff)
+    j.lib("fit:link0", est.fit, X)
+    est.n_to_select = 32800
+    j.lib("fit:link1", est.fit, X, warm_start=True)
+    a, b = np.asarray(est.selected_idx_), np.asarray(cold.selected_idx_)
+    j.ok("warm chain reaches the cold sequence (differences only from a tied step)", a.shape == b.shape and bool(np.array_equal(a, b)), lambda: {"first_difference": int(np.argmax(a != b)) if a.shape == b.shape else (a.shape, b.shape)})
+    j.ok("indices pairwise distinct", len(set(a.tolist())) == len(a), len(set(a.tolist())))
+    # the last hundred steps against the definition
+    h = np.full(len(X), np.inf)
+    for s0 in range(0, 32700, 4096):
+        blk = X[a[s0 : min(s0 + 4096, 32700)]]
+        h = np.minimum(h, ((X[:, None, :] - blk[None, :, :]) ** 2).sum(-1).min(axis=1))
+    for t in range(32700, 32800):
+        j.ok("pick is a farthest candidate (definition, all earlier selections)", h[a[t]] >= float(h.max()) * (1 - 1e-9), {"step": t})
+        h = np.minimum(h, ((X - X[a[t]]) ** 2).sum(axis=1))
+    j.close("distance table after the last link == true min distance to the selected set", np.asarray(est.hausdorff_, dtype=float), h, 1e-9 * max(float(np.max(h)), 1e-12))
+    j.note("chains_beyond_32767_selections")
+    j.nontrivial = True
+    j.sample = {"points": 33000, "schedule": [32700, 32800]}
+
+
 def gen(rng, tier, index):
+    if tier == "thorough" and index >= CASES[tier] - 2:  # (about 40 s each: thorough tier only)
+        return {"long": True, "seed": int(rng.integers(1 << 30)), "start": int(rng.integers(33000)), "ff": float(gens.pick(rng, (0.5, 1.0, 0.05)))}
     exh = _EXH[tier]
     if index < len(exh):
         v, sch, d = exh[index]
@@ -215,6 +250,8 @@ def _judgeable(spec, X, y, nfin):
 
 
 def run(case, j):
+    if case.get("long"):
+        return _run_long(case, j)
     spec, X, y, links = case["spec"], case["X"], case["y"], case["links"]
     if spec.get("how", "ctor") != "ctor":
         j.note("configured_not_by_constructor")
